@@ -267,6 +267,23 @@ func (IdGen) Extra(tier string, seed int64) []orch.Case {
 		orch.Fatal("idgen: the flaky entropy source did not behave as intended (%d reads, %d of 300 builds refused)", flaky.calls, refused)
 	}
 	rand.Reader = rec
+	// fourth phase: the first messages of a process. Each run of cmd/verifcold is a fresh process in which twelve
+	// goroutines, released together, build the first 36 messages; it reports the identifiers and its entropy reads.
+	nCold := 40
+	if tier == "thorough" {
+		nCold = 400
+	}
+	for k := 0; k < nCold; k++ {
+		var co ColdIDsOut
+		runCold(&co, "ids")
+		for _, c := range co.IDs {
+			evs = append(evs, rawEv{c.Kind, 0, c.G, c.ID})
+		}
+		rec.mu.Lock()
+		rec.reads = append(rec.reads, co.Reads...)
+		rec.mu.Unlock()
+	}
+	removeColdBinary()
 	shortDraw := map[string][]byte{}
 	for i, e := range shortEvs {
 		if 16*i+16 <= len(short.stream) {
